@@ -84,15 +84,15 @@ PROPS = {
                        'force-breaking keep the tiling and add at most a hyphen penalty (U14, U15, U6), the line breakers return an ordered partition (U1, U2, U17). Every line '
                        'is Cow::Borrowed exactly when it carries no indent and no inserted hyphen, otherwise Owned (U11: the Cow variant of every line is the function wrap_fn_b of '
                        'the paragraphs; the shortcut line is borrowed); fill == the lines joined (U12). The last sentence — a slice never ends in a space — is proved, '
-                       'for all texts, for the ASCII-space separator with the built-in splitters (any break_words setting, both algorithms, any indents): a postcondition of wrap '
+                       'for all texts, for the ASCII-space separator (any splitter — a custom one under its A15 obligation that split points lie strictly inside the word —, any break_words setting, both algorithms, any indents): a postcondition of wrap '
                        '(exists segs: text_lines_upto(…) && seg_tails_ok(text, segs)) obtained from what each stage exports under its own contract — the dispatcher sends AsciiSpace to '
                        'find_words_ascii_space, whose words hold no space and of which only the first can be without text (U13); the pieces split_words and break_words / break_apart '
                        'make of such words are non-empty sub-slices of them (U14 with U16\'s split points, U6, U15); the slice of a line ends with the text of its last word (U11, '
                        'lemma run_tail_ok), the shortcut line is trimmed.',
         'bounded_part': 'BEC (bounded, exhaustive within scope): pointer identity of borrowed lines with the caller\'s buffer (Verus proves the Borrowed variant, whose lifetime ties it to the text; the address itself is not expressible), "a slice never ends in a space except after a forced '
-                        'break" for the Unicode separator and for custom splitters (where it holds only conditionally: a word of that separator may contain a space, and a custom split point may follow it), and the whole statement again by execution on the real crate for every text/option combination of its scope.',
+                        'break" for the Unicode separator (where it holds only conditionally: a word of that separator may contain a space, after which break_words or a custom split point may cut), and the whole statement again by execution on the real crate for every text/option combination of its scope.',
         'explanation': 'Mixed, mostly proved: the statement\'s first two sentences are a discharged postcondition of wrap itself (relative to the restated contracts of the word '
-                       'pipeline, DESIGN.md §2.8, and std\'s str::split / slicing, A4); the Borrowed-variant clause is proved; the last sentence is proved for the ASCII-space separator with the built-in splitters and checked by bounded exhaustive enumeration for the Unicode separator and custom splitters; pointer identity is bounded-only.',
+                       'pipeline, DESIGN.md §2.8, and std\'s str::split / slicing, A4); the Borrowed-variant clause is proved; the last sentence is proved for the ASCII-space separator and checked by bounded exhaustive enumeration for the Unicode separator; pointer identity is bounded-only.',
     },
     'C02': {
         'units': ['U11', 'U1', 'U6', 'U22'], 'level': 'other', 'trusted': ['A1', 'A4', 'A5', 'A9', 'A12', 'A15', 'A17', 'R15'],
